@@ -24,7 +24,8 @@ RULE = (
     "Hypothesis draws (shape 1-3 dims with sides from small ints/primes/powers of two/up to 1e6, source and target "
     "chunks in [1,side] biased to 1, side, divisors and co-prime pairs, itemsize in {1,2,4,8,16}, max_mem from just below "
     "the larger chunk to 1000x, min_mem in [0,max_mem+1], allow_irregular) for the two planner functions, and the same "
-    "geometry on real arrays through Array.rechunk/rechunk_plan (plan invariants on the built copy ops, then executed). "
+    "geometry on real arrays through Array.rechunk/rechunk_plan (plan invariants on the built copy ops, the stages reported by the public "
+    "rechunk_plan() equal the built ones, then executed). "
     "Oracle: explicit rejection (ValueError/NotImplementedError) or I1 chain (first stage reads a consolidation of the "
     "source chunks, each stage reads what the previous wrote, last stage writes a consolidation of the target), "
     "I2 every read/intermediate/write chunk * itemsize <= max_mem, I3 copy grid boundaries are a subset of the "
@@ -445,6 +446,32 @@ def check_real(case, execute=True) -> Outcome:
         labels.append(f"copies={min(len(ops), 4)}")
     else:
         labels.append("no-op")
+
+    # the plan reported by the public rechunk_plan(x, chunks, ...) is the plan that is built and executed
+    try:
+        from cubed.core.rechunk import rechunk_plan as public_rechunk_plan
+
+        with warnings.catch_warnings():
+            warnings.simplefilter("ignore")
+            rp = public_rechunk_plan(x, req, allow_irregular=case["allow_irregular"], **kw)
+
+        def _norm(c):
+            return tuple(tuple(int(v) for v in d) for d in normalize_chunks(tuple(c), shape, dtype=np.dtype(dtype)))
+
+        reported = [(_norm(co.copy_chunks), _norm(co.target_chunks)) for co in rp.copy_ops]
+        built = [(_norm(tuple(int(c) for c in po.write_chunks)), _norm(tuple(po.target_array.chunks))) for _, po in ops]
+        labels.append("reported-plan-compared")
+        if case["allow_irregular"]:
+            # with irregular intermediates the built storage grid is the intersection grid, the report names the planner's regular
+            # target chunks: only the number of stages and the copy chunks are comparable
+            reported = [cc for cc, _ in reported]
+            built = [cc for cc, _ in built]
+        if reported != built:
+            bad("reported-plan-differs-from-built", f"rechunk_plan reports {reported}, Array.rechunk built {built}")
+    except (ValueError, NotImplementedError):
+        labels.append("reported-plan-rejected")
+    except Exception as e:
+        bad(f"reported-plan:{type(e).__name__}", f"{e!r}"[:200])
 
     if execute and not fails:
         try:
